@@ -278,3 +278,14 @@ Definition check_dagger (c : list (Z * Z) * graph * graph) : bool :=
   let '(tbl, g, gd) := c in
   peqb (denote gd) (pdagger (assoc_hc tbl) (denote g)) &&
   peqb (denote (gdagger (assoc_hc tbl) g)) (denote gd).
+
+(* MPO.plus_identity(alpha, beta, sites=[0]) : alpha * 1 + beta * H *)
+Definition gplus_id (a b : C) (g : graph) : graph :=
+  match g with
+  | [] => []
+  | es :: g' => (map (fun e => if key_eqb (eL e) IdL then mkE (eL e) (eR e) (eop e) (cmul b (ew e)) else e) es
+                 ++ [mkE IdL IdR 0 a]) :: g'
+  end.
+Definition check_plus_id (c : C * C * graph * graph) : bool :=
+  let '(a, b, g, gi) := c in
+  peqb (denote gi) ((a, []) :: pscale b (denote g)) && peqb (denote (gplus_id a b g)) (denote gi).
